@@ -112,7 +112,7 @@ func TestVerifC09Compaction(t *testing.T) {
 	var cases int64
 	rapid.Check(t, func(rt *rapid.T) {
 		vC09SetHook(nil)
-		dir, err := os.MkdirTemp("", "c09")
+		dir, err := vC09TempDir()
 		if err != nil {
 			rt.Fatal(err)
 		}
@@ -120,6 +120,9 @@ func TestVerifC09Compaction(t *testing.T) {
 		c := vC09DrawCase(rt, 8)
 		mode := rapid.SampledFrom([]string{"fast", "full"}).Draw(rt, "mode")
 		size := rapid.SampledFrom([]int{0, 0, 10, 1}).Draw(rt, "size")
+		if c.forceSize != 0 {
+			size = c.forceSize
+		}
 		inj := rapid.SampledFrom([]string{"none", "none", "none", "none", "none", "none", "abort-block", "abort-block", "abort-file", "corrupt", "corrupt", "exists"}).Draw(rt, "inject")
 		classes := map[string]bool{}
 		cl := func(s string) { classes[s] = true }
@@ -258,12 +261,18 @@ func TestVerifC09Compaction(t *testing.T) {
 			for k := range skip {
 				cskip[k] = true
 			}
-			nloc, err := vC09Locations(fs, c.keys)
+			nloc, err := vC09GroupBlocks(fs, nil, c.keys)
 			if err != nil {
 				rt.Fatalf("harness: %v", err)
 			}
-			for k, n := range nloc {
-				if n > vC09MaxCursorLocations && !cskip[k] {
+			for k, kb := range nloc {
+				if kb.n > 3000 && !cskip[k] {
+					// KeyCursor.Next is quadratic in the number of block locations; the block-count
+					// limit scenario (66000 one-point blocks) is read through ReadAll only
+					cskip[k] = true
+					cl("cursor:skipped-for-cost(>3000 blocks)")
+				}
+				if kb.n > vC09MaxCursorLocations && kb.overlap && !cskip[k] {
 					cskip[k] = true
 					st.Exclude("keycursor-misorders-more-than-12-overlapping-blocks")
 				}
@@ -288,8 +297,8 @@ func TestVerifC09Compaction(t *testing.T) {
 			if err != nil {
 				rt.Fatalf("harness: %v", err)
 			}
-			for k, cnt := range n {
-				if cnt > vC09MaxMergeBlocks && !skip[k] {
+			for k, kb := range n {
+				if kb.n > vC09MaxMergeBlocks && kb.overlap && !skip[k] {
 					skip[k] = true
 					st.Exclude("compaction-misorders-more-than-20-blocks-of-a-key")
 				}
@@ -372,7 +381,7 @@ func TestVerifC09Compaction(t *testing.T) {
 		outcome := "ok"
 		if run.err != nil {
 			outcome = "failed"
-			expected := (inj == "abort-block" || inj == "abort-file") && fired || inj == "corrupt-len" || inj == "exists"
+			expected := (inj == "abort-block" || inj == "abort-file") && fired || strings.HasPrefix(inj, "corrupt-") || inj == "exists"
 			if !expected {
 				rt.Fatalf("%s compaction (%s size=%d inject=%s fired=%v) failed: %v\ncase: %s", verifkit.Sig("compaction-failed-unexpectedly"), mode, size, inj, fired, run.err, strings.Join(c.describe(), "\n"))
 			}
@@ -395,7 +404,7 @@ func TestVerifC09Compaction(t *testing.T) {
 			case "exists":
 				os.Remove(junk)
 			}
-			if inj != "corrupt-len" {
+			if !strings.HasPrefix(inj, "corrupt-") {
 				// the same group must be compactable afterwards (nothing stays reserved)
 				run = vC09Compact(cp, mode == "fast", group)
 				if run.hung || run.panicked != nil || run.err != nil {
